@@ -228,6 +228,13 @@ def run(ctx):
 
     # ------------------------------------------------------------------ assert iff mismatch
     check_assert_iff(ctx)
+    # assertThat / expectThat / assert_that test the verdict by its truth: "raises exactly when match() returned a mismatch" needs
+    # every mismatch object to be true -- no class of mismatches may define __bool__ or __len__ (an empty MismatchesAll would pass)
+    for c in mm:
+        bad = [m for m in ("__bool__", "__len__") if any(m in k.methods or m in k.attrs for k in classes.mro(c) if not k.external)]
+        ctx.check("R-ASSERT-IFF", f"{c.name}: a mismatch object is never false (the assertion helpers test `if mismatch`)", c.node, not bad,
+                  f"{c.name} defines {bad}: an empty / zero mismatch would be false, and assertThat, expectThat and assert_that would take a mismatch for a match",
+                  construct=f"{c.module.name}:{c.name}::truthy")
     check_force_honoured(ctx)
     ctx.assume("no mismatch object is falsy (decided by C06 R-NO-FALSY-MISMATCH)")
 
